@@ -79,6 +79,22 @@ func Harness_C08_lookup() {
 		}
 		switch verif_Choose(3) {
 		case 0: // the client connects to some node and authenticates
+			elsewhere := true // every later login went to the other node (a login on the same node evicts the old connection)
+			for k := 1; k < len(conns); k++ {
+				if conns[k].node == conns[0].node {
+					elsewhere = false
+				}
+			}
+			if len(conns) >= 2 && latest > 0 && elsewhere && conns[0].open && conns[0].authed && verif_Bool() {
+				// ... or authenticates once more over its surviving first connection (after it had
+				// logged in elsewhere): that connection is its current location again
+				c := conns[0]
+				err := vsHandshake(nodes[c.node], c.id, &packet.HandshakeRequest{ClientID: client, ConnectionType: "control", Protocol: "tcp"})
+				verif_Assert("C08.rehandshake.ok", err == nil)
+				latest = 0
+				verif_Cover("C08.rehandshake_on_old_connection")
+				break
+			}
 			nd := verif_Choose(2)
 			c := &c08Conn{id: fmt.Sprintf("c%d", len(conns)), node: nd, open: true}
 			conns = append(conns, c)
